@@ -317,15 +317,27 @@ Theorem stpnt_partial vars m : wf vars m = true -> all_values_f32_exact m = true
   compiled_stpnt (emit m) = spec_stpnt (emit m).
 Proof.
   intros WF G. rewrite (emit_refines _ _ WF). unfold compiled_stpnt, spec_stpnt, spec_emit. cbn [e_stpnt e_stpnt_y].
-  rewrite !map_map. cbn [fst snd]. f_equal; apply map_ext; intros a; now rewrite lookupq_exact.
+  rewrite !map_map. cbn [fst snd]. unfold stpnt_value.
+  destruct fixed_stpnt; [reflexivity|]. f_equal; apply map_ext; intros a; now rewrite lookupq_exact.
+Qed.
+
+(* with the repair (model switch on) the full statement holds: no guard *)
+Theorem stpnt_full_if_fixed : fixed_stpnt = true ->
+  forall vars m, wf vars m = true -> compiled_stpnt (emit m) = spec_stpnt (emit m).
+Proof.
+  intros F vars m _. unfold compiled_stpnt, spec_stpnt, stpnt_value. rewrite F.
+  f_equal; apply map_ext; intros [[i q] n]; reflexivity.
 Qed.
 
 Definition stpnt_witness : model :=
   {| m_events := ["x"; "p1"]%string; m_args := ["dy"; "p1"]%string; m_ret := "dy"%string; m_states := ["x"%string];
      m_val := [("x"%string, mkq 1 2); ("p1"%string, mkq 1 10)]; m_dfdp := []; m_over := [] |}.
-Theorem stpnt_refuted : exists vars m, wf vars m = true /\ compiled_stpnt (emit m) <> spec_stpnt (emit m).
+(* as the code is (model switch off) it is false: 1/10 comes back as 13421773/134217728 *)
+Theorem stpnt_refuted_if_unfixed : fixed_stpnt = false ->
+  exists vars m, wf vars m = true /\ compiled_stpnt (emit m) <> spec_stpnt (emit m).
 Proof.
-  exists ["x"; "p1"]%string, stpnt_witness. split; [vm_compute; reflexivity|]. intros H.
+  intros F. exists ["x"; "p1"]%string, stpnt_witness. split; [vm_compute; reflexivity|]. intros H.
+  unfold compiled_stpnt, stpnt_value in H. rewrite F in H.
   apply (f_equal (fun s => match fst s with (_, q) :: _ => Qnum (this q) | _ => 0 end)) in H.
   vm_compute in H. discriminate.
 Qed.
